@@ -807,11 +807,14 @@ func (s *session) closeLocked() error {
 		return nil
 	} // readDisconnected is being called
 	s.peer.sessHub.deleteSession(s.ID(), s)
-	s.notifyClosed()
 	s.graceCtxWait()
 	s.graceCallCmdWaitGroup.Wait()
 	s.changeStatus(statusActiveClosed)
 	err := s.socket.Close()
+	// only now has the connection gone away: a holder of the connection that
+	// waits for this notification (the websocket server handler) must not
+	// tear it down while replies are still to be written
+	s.notifyClosed()
 	s.peer.pluginContainer.postDisconnect(s)
 	return err
 }
